@@ -233,13 +233,26 @@ def hashseeds(ctx, arg, rec):
     from hypothesis import strategies as st
 
     shard, n = arg
-    strat = st.builds(lambda spec, cfg, a: dict(kind="hashseed", spec=spec, cfg=cfg, hashseeds=[0, a, a, a + 1] if not ctx.quick else [0, a, a + 7]), tflgen.network("wide", max_ops=7, big=False), tflgen.config(), st.integers(1, 1000))
+    import corners
+
+    @st.composite
+    def net(draw):
+        spec = draw(tflgen.network(draw(st.sampled_from(["wide", "wide", "cpumix"])), max_ops=7, big=False))
+        if draw(st.booleans()):
+            # several third-party custom operators with different names (what is hashed differs per operator: set / dict orders are the usual leak)
+            import copy
+
+            spec = copy.deepcopy(spec)
+            corners.custom_tail(spec, draw, st)
+        return spec
+
+    strat = st.builds(lambda spec, cfg, a: dict(kind="hashseed", spec=spec, cfg=cfg, hashseeds=[0, a, a, a + 1] if not ctx.quick else [0, a, a + 7]), net(), tflgen.config(), st.integers(1, 1000))
     run_hypothesis(rec, strat, oracle_hashseed, n, sub_seed(ctx.seed, PROPERTY, "hs", shard))
 
 
 def parts(ctx):
     q = ctx.quick
-    return [Part("hist%02d" % i, histories, (i, 8 if q else 320)) for i in range(12)] + [Part("hashseed%d" % i, hashseeds, (i, 6 if q else 80)) for i in range(4)]
+    return [Part("hist%02d" % i, histories, (i, 8 if q else 320)) for i in range(12)] + [Part("hashseed%d" % i, hashseeds, (i, 8 if q else 100)) for i in range(4)]
 
 
 def replay(ctx, case):
